@@ -24,6 +24,7 @@ GD = {"plate": Geo("D", "plate", 2, 3), "trough": Geo("D", "trough", 2, 3)}
 OPTIONS = [
     ("wash", 2), ("wash", 3), ("wash", 4), ("wash", "flush"), ("wash", "reuse"),
     ("diti", True),
+    ("diti", "numpy.bool_"),  # a truthy value that is not the True singleton (e.g. the result of arr.any())
     ("lc", "Water free"),
     ("tip", 3), ("tip", {"$tip": "T5"}), ("tip", [1, {"$tip": "T2"}]),
     ("rack_id", "RID-1"),
@@ -221,7 +222,10 @@ class Harness(cm.BaseB):
         gs, gd = GS[case["src"]], GD[dst_kind]
         o = dict((k, v) for k, v in opts)
         if wl is None:
-            wl = getattr(rt, case["dev"])(max_volume=MAXV, diti_mode=bool(o.get("diti")), auto_split=case.get("auto_split", True))
+            dm = np.bool_(True) if o.get("diti") == "numpy.bool_" else bool(o.get("diti"))
+            wl = getattr(rt, case["dev"])(max_volume=MAXV, diti_mode=dm, auto_split=case.get("auto_split", True))
+        # the deck is also looked at with the other device's public numbering helper (nothing is pipetted)
+        cm.other_device_looks({"lw": {"s": s, "d": d}}, case["dev"])
         kw = {"partition_by": case["pb"]}
         if "wash" in o:
             kw["wash_scheme"] = o["wash"]
